@@ -417,6 +417,13 @@ def ctc_stream(ctx):
         # three different constraints under one name (the name is a label, not a key)
         yield "same-name", dict(root=base, ctcs=[("rule", OP(o, T("Xa"), T("Yb"))), ("rule", OP(o, T("Yb"), T("yb"))),
                                                  ("rule", OP(o, T("yb"), T("Xa")))])
+    # every bound pair of one group: [a..b] and [a..*] over one to four members, the first member with an optional child
+    for k in (1, 2, 3, 4):
+        for a in range(0, k + 1):
+            for b in list(range(max(a, 1), k + 1)) + [-1]:
+                kids = [spec.F(f"G{j}") for j in range(k)]
+                kids[0]["rels"].append(spec.R(0, 1, [spec.F("Sub")]))
+                yield "group-bounds", dict(root=spec.F("R", [spec.R(a, b, kids)]), ctcs=[])
     # numbered names past 9 (F1 is a prefix of F10), a decomposed name used in a constraint
     for m in gen.big_models(cardinal=False):
         if m["root"]["name"] == "Num":
